@@ -206,7 +206,19 @@ pub fn check_lax_laws(f: &PLax<u8, u8>, g: &PLax<u8, u8>, h: &PLax<u8, u8>, loc:
     if f.open.target_type() == g.open.source_type() && g.open.target_type() == h.open.source_type() {
         let l = catch(|| Arrow::compose(&lf, &lg).and_then(|fg| Arrow::compose(&fg, &lh)));
         let r = catch(|| Arrow::compose(&lg, &lh).and_then(|gh| Arrow::compose(&lf, &gh)));
-        lax_report(loc, "assoc", l, r, case.clone());
+        lax_report(loc, "assoc", l.clone(), r.clone(), case.clone());
+        // the same with the inner composite quotiented (normalised) before it is composed again, on either side
+        let norm = |x: Option<LO>| -> Option<LO> {
+            x.and_then(|mut c| match c.quotient() {
+                Ok(_) => Some(c),
+                Err(_) => None,
+            })
+        };
+        let ln = catch(|| norm(Arrow::compose(&lf, &lg)).and_then(|fg| Arrow::compose(&fg, &lh)));
+        let rn = catch(|| norm(Arrow::compose(&lg, &lh)).and_then(|gh| Arrow::compose(&lf, &gh)));
+        lax_report(loc, "assoc-normalised-inner-composites", ln.clone(), rn.clone(), case.clone());
+        lax_report(loc, "assoc-raw-left-normalised-right", l, rn, case.clone());
+        lax_report(loc, "assoc-normalised-left-raw-right", ln, r, case.clone());
         loc.nontrivial();
     }
     // interchange: (f;g) tensor (g;h)-like pairs when both chains exist: (f;g) | h  vs  (f|h1);(g|h2) with h = h;id
